@@ -271,6 +271,23 @@ def cases(ctx, with_ctcs, big):
                                      R(0, 1, [F("AB"), F("ab")])]), ctcs=[])
     for m in gen.big_models():
         yield "big", dict(root=m["root"], ctcs=m["ctcs"] if with_ctcs else [])
+    # the same operations on a model RETURNED BY A READER (written here in UVL by the harness): bounds of two digits
+    kids = [F(f"G{i}") for i in range(12)]
+    kids[3]["rels"].append(R(1, 1, [F("Inner")]))
+    yield "via-uvl-reader", dict(root=F("Root", [R(1, 1, [F("M", [R(10, 10, kids), R(2, 3, [F(f"H{i}") for i in range(4)])])]),
+                                                  R(0, 1, [F("Opt", [R(12, 12, [F(f"J{i}") for i in range(12)])])])]), ctcs=[])
+    yield "via-uvl-reader", dict(root=F("Root", [R(1, -1, [F("A"), F("B", [R(0, 1, [F("Bx")])])]), R(1, 1, [F("C"), F("D")])]), ctcs=[])
+    # the composed and the decomposed spelling of one word as siblings of different kinds
+    yield "twins", dict(root=F("P", [R(1, 1, [F("Cr\u00e8me")]), R(0, 1, [F("Cre\u0300me")]),
+                                     R(1, 1, [F("\u212b", [R(1, 1, [F("\u00c5")])])])]), ctcs=[])
+    # a chain past 256 levels, mandatory and optional levels alternating, an optional sibling on every fourth level
+    f = F("D300")
+    for i in range(299, -1, -1):
+        rels = [R(1, 1, [f])] if i % 2 else [R(0, 1, [f])]
+        if i % 4 == 0:
+            rels.append(R(0, 1, [F(f"S{i}")]))
+        f = F(f"D{i}", rels)
+    yield "deep", dict(root=f, ctcs=[])
     # groups around the 53 bits of a double and the 256 shared int objects: or, select-all and [2..*] over leaves
     for width in (53, 54, 64, 256, 257):
         kids = [F(f"w{i}") for i in range(width)]
@@ -310,6 +327,36 @@ def cases(ctx, with_ctcs, big):
             yield "wide", dict(root=spec.F("W", [spec.R(1, width, [spec.F(f"w{i}") for i in range(width)])]), ctcs=[])
 
 
+def uvl_text(f, depth=2):
+    """a feature of a constraint-free Boolean model with plain names in UVL (groups spelt [a..b], single children under
+    mandatory / optional)"""
+    tabs = "\t" * depth
+    out = tabs + f["name"] + "\n"
+    for r in f["rels"]:
+        k = len(r["children"])
+        if k == 1 and (r["min"], r["max"]) in ((1, 1), (0, 1)):
+            head = "mandatory" if r["min"] == 1 else "optional"
+        else:
+            head = f"[{r['min']}..{'*' if r['max'] == -1 else r['max']}]"
+        out += tabs + "\t" + head + "\n"
+        for c in r["children"]:
+            out += uvl_text(c, depth + 2)
+    return out
+
+
+def read_through_uvl(m):
+    import os
+    import tempfile
+    from flamapy.metamodels.fm_metamodel.transformations import UVLReader
+    fd, path = tempfile.mkstemp(suffix=".uvl")
+    try:
+        with os.fdopen(fd, "w", encoding="utf-8") as fh:
+            fh.write("features\n" + uvl_text(m["root"], 1))
+        return UVLReader(path).transform()
+    finally:
+        os.remove(path)
+
+
 def make_run(name, keys, with_ctcs=True, big=(), bf_limit=12, check_sem=False):
     def run(ctx):
         st = ctx.suite(name)
@@ -318,6 +365,8 @@ def make_run(name, keys, with_ctcs=True, big=(), bf_limit=12, check_sem=False):
             req = sx.dumps(tag("ops", spec.fm_sx(m)))
             mreply = model_ops(sx.loads(ctx.model.call_raw(req)), keys)
             fm = spec.build_fm(m)
+            if label == "via-uvl-reader":
+                fm = read_through_uvl(m)         # "built through the constructors or RETURNED BY A READER"
             impl = impl_ops(fm, keys, ops)
             after = spec.dump_fm(fm)
             n = spec.spec_size(m["root"])
